@@ -549,6 +549,13 @@ pub fn corruptions_check(rep: &mut Report) {
 pub fn check_c05(rep: &mut Report) {
     crash_points(rep);
     corruptions_check(rep);
+    // interruption by a termination signal, through the real actor (E1): at every state of every schedule
+    // a record on disk implies that the target's last cycle ran its script to a zero exit
+    crate::e1::check_phases(rep, "signal interruption through the actor: real incremental runner, every phase a parking point, signal at every state", false);
+    let n = rep.coverage.get("executions").and_then(|v| v.as_u64()).unwrap_or(0);
+    rep.add_u64("evaluations", n);
+    let st = rep.coverage.get("states").and_then(|v| v.as_u64()).unwrap_or(0);
+    rep.add_u64("distinct_nontrivial", st);
     rep.set("exhaustive", json!(true));
     rep.set("rule", json!("cases = (layout, starting state, crash point | partial write of k bytes for every k | script outcome) and (layout, record corruption, tree changed?); each case runs the real build cycle up to the crash, forgets it, and runs a fresh invocation on the same tree; distinct = distinct case descriptors"));
     rep.set("bounds", json!({"crash_points": "P0 decided, P1 old record deleted, script running, P3 script done, P4 state computed, P5.k after k bytes for every k, P6 saved", "outcomes": "exit 0/1/255, signal 9/15, launch failure", "starting_states": "no record; record then input changed; record then output deleted (script re-creates identical content)", "layouts": ["file-path", "directory", "file+cmd", "cmd-only"], "corruptions": "every prefix, every byte x {0x00,0xFF,^0x01,^0x80}, empty, text, directory, another target's record, trailing bytes, length prefixes 2^40 and 2^63 at every 8-byte offset; each with tree unchanged and changed"}));
